@@ -68,3 +68,144 @@ VARIANTS += [
  dict(name='entry-helper-reads-other-path', file=T, expect='flagged(exact-set/file-path)', find=ENTRY_OLD, replace=ENTRY_CALL,
       edits=[(T, HOOK, entry_helper(('filepath.Join(storePath, certFileName)', 'filepath.Join(filepath.Dir(storePath), certFileName)')))]),
 ]
+
+
+# ---- second pass: classes of rewrites (the whole method is replaced; the pieces are the statements of the base tree) ----------
+GETCERTS_OLD = '// GetCertificates returns certificates under storeType/namedStore\nfunc (trustStore *x509TrustStore) GetCertificates(ctx context.Context, storeType Type, namedStore string) ([]*x509.Certificate, error) {\n\tif !isValidStoreType(storeType) {\n\t\treturn nil, TrustStoreError{Msg: fmt.Sprintf("unsupported trust store type: %s", storeType)}\n\t}\n\tif !file.IsValidFileName(namedStore) {\n\t\treturn nil, TrustStoreError{Msg: fmt.Sprintf("trust store name needs to follow [a-zA-Z0-9_.-]+ format, %s is invalid", namedStore)}\n\t}\n\tpath, err := trustStore.trustStorefs.SysPath(dir.X509TrustStoreDir(string(storeType), namedStore))\n\tif err != nil {\n\t\treturn nil, TrustStoreError{InnerError: err, Msg: fmt.Sprintf("failed to get path of trust store %s of type %s", namedStore, storeType)}\n\t}\n\t// throw error if path is not a directory or is a symlink or does not exist.\n\tfileInfo, err := os.Lstat(path)\n\tif err != nil {\n\t\tif os.IsNotExist(err) {\n\t\t\treturn nil, TrustStoreError{InnerError: err, Msg: fmt.Sprintf("the trust store %q of type %q does not exist", namedStore, storeType)}\n\t\t}\n\t\treturn nil, TrustStoreError{InnerError: err, Msg: fmt.Sprintf("failed to access the trust store %q of type %q", namedStore, storeType)}\n\t}\n\tmode := fileInfo.Mode()\n\tif !mode.IsDir() || mode&fs.ModeSymlink != 0 {\n\t\treturn nil, TrustStoreError{Msg: fmt.Sprintf("the trust store %s of type %s with path %s is not a regular directory (symlinks are not supported)", namedStore, storeType, path)}\n\t}\n\tfiles, err := os.ReadDir(path)\n\tif err != nil {\n\t\treturn nil, TrustStoreError{InnerError: err, Msg: fmt.Sprintf("failed to access the trust store %q of type %q", namedStore, storeType)}\n\t}\n\n\tvar certificates []*x509.Certificate\n\tfor _, file := range files {\n\t\tcertFileName := file.Name()\n\t\tjoinedPath := filepath.Join(path, certFileName)\n\t\tif file.IsDir() || file.Type()&fs.ModeSymlink != 0 {\n\t\t\treturn nil, CertificateError{Msg: fmt.Sprintf("trusted certificate %s in trust store %s of type %s is not a regular file (directories or symlinks are not supported)", certFileName, namedStore, storeType)}\n\t\t}\n\t\tcerts, err := corex509.ReadCertificateFile(joinedPath)\n\t\tif err != nil {\n\t\t\treturn nil, CertificateError{InnerError: err, Msg: fmt.Sprintf("failed to read the trusted certificate %s in trust store %s of type %s", certFileName, namedStore, storeType)}\n\t\t}\n\t\tif err := ValidateCertificates(certs); err != nil {\n\t\t\treturn nil, CertificateError{InnerError: err, Msg: fmt.Sprintf("failed to validate the trusted certificate %s in trust store %s of type %s", certFileName, namedStore, storeType)}\n\t\t}\n\t\t// we require TSA certificates in trust store to be root CA certificates\n\t\tif storeType == TypeTSA {\n\t\t\tfor _, cert := range certs {\n\t\t\t\tif err := isRootCACertificate(cert); err != nil {\n\t\t\t\t\treturn nil, CertificateError{InnerError: err, Msg: fmt.Sprintf("trusted certificate %s in trust store %s of type %s is invalid: %v", certFileName, namedStore, storeType, err.Error())}\n\t\t\t\t}\n\t\t\t}\n\t\t}\n\t\tcertificates = append(certificates, certs...)\n\t}\n\tif len(certificates) < 1 {\n\t\treturn nil, CertificateError{InnerError: fs.ErrNotExist, Msg: fmt.Sprintf("no x509 certificates were found in trust store %q of type %q", namedStore, storeType)}\n\t}\n\treturn certificates, nil\n}\n\n'
+E_TYPE = '\tif !isValidStoreType(storeType) {\n\t\treturn %s, TrustStoreError{Msg: fmt.Sprintf("unsupported trust store type: %%s", storeType)}\n\t}\n'
+E_NAME = '\tif !file.IsValidFileName(namedStore) {\n\t\treturn %s, TrustStoreError{Msg: fmt.Sprintf("trust store name needs to follow [a-zA-Z0-9_.-]+ format, %%s is invalid", namedStore)}\n\t}\n'
+E_SYS = '\tstorePath, err := %s.trustStorefs.SysPath(dir.X509TrustStoreDir(string(storeType), namedStore))\n\tif err != nil {\n\t\treturn %s, TrustStoreError{InnerError: err, Msg: fmt.Sprintf("failed to get path of trust store %%s of type %%s", namedStore, storeType)}\n\t}\n'
+E_LSTAT = '\tfileInfo, err := os.Lstat(storePath)\n\tif err != nil {\n\t\tif os.IsNotExist(err) {\n\t\t\treturn nil, TrustStoreError{InnerError: err, Msg: fmt.Sprintf("the trust store %q of type %q does not exist", namedStore, storeType)}\n\t\t}\n\t\treturn nil, TrustStoreError{InnerError: err, Msg: fmt.Sprintf("failed to access the trust store %q of type %q", namedStore, storeType)}\n\t}\n'
+E_MODE = '\tmode := fileInfo.Mode()\n\tif !mode.IsDir() || mode&fs.ModeSymlink != 0 {\n\t\treturn nil, TrustStoreError{Msg: fmt.Sprintf("the trust store %s of type %s with path %s is not a regular directory (symlinks are not supported)", namedStore, storeType, storePath)}\n\t}\n'
+E_READDIR = '\tentries, err := os.ReadDir(storePath)\n\tif err != nil {\n\t\treturn nil, TrustStoreError{InnerError: err, Msg: fmt.Sprintf("failed to access the trust store %q of type %q", namedStore, storeType)}\n\t}\n'
+E_EMPTYDIR = '\tif len(entries) == 0 {\n\t\treturn nil, CertificateError{InnerError: fs.ErrNotExist, Msg: fmt.Sprintf("no x509 certificates were found in trust store %q of type %q", namedStore, storeType)}\n\t}\n'
+E_EMPTYRES = '\tif len(certificates) < 1 {\n\t\treturn nil, CertificateError{InnerError: fs.ErrNotExist, Msg: fmt.Sprintf("no x509 certificates were found in trust store %q of type %q", namedStore, storeType)}\n\t}\n'
+# the per-entry statements (one tab deep: the body of a helper), up to and including ValidateCertificates
+E_ENTRY = ('\tcertFileName := entry.Name()\n\tif entry.IsDir() || entry.Type()&fs.ModeSymlink != 0 {\n\t\treturn nil, CertificateError{Msg: fmt.Sprintf("trusted certificate %s in trust store %s of type %s is not a regular file (directories or symlinks are not supported)", certFileName, namedStore, storeType)}\n\t}\n'
+           '\tcerts, err := corex509.ReadCertificateFile(filepath.Join(storePath, certFileName))\n\tif err != nil {\n\t\treturn nil, CertificateError{InnerError: err, Msg: fmt.Sprintf("failed to read the trusted certificate %s in trust store %s of type %s", certFileName, namedStore, storeType)}\n\t}\n'
+           '\tif err := ValidateCertificates(certs); err != nil {\n\t\treturn nil, CertificateError{InnerError: err, Msg: fmt.Sprintf("failed to validate the trusted certificate %s in trust store %s of type %s", certFileName, namedStore, storeType)}\n\t}\n')
+E_TSA_INLINE = '\tif storeType == TypeTSA {\n\t\tfor _, cert := range certs {\n\t\t\tif err := isRootCACertificate(cert); err != nil {\n\t\t\t\treturn nil, CertificateError{InnerError: err, Msg: fmt.Sprintf("trusted certificate %s in trust store %s of type %s is invalid: %v", certFileName, namedStore, storeType, err.Error())}\n\t\t\t}\n\t\t}\n\t}\n'
+E_TSA_CALL = '\tif storeType == TypeTSA {\n\t\tif err := validateRootCACertificates(certs); err != nil {\n\t\t\treturn nil, CertificateError{InnerError: err, Msg: fmt.Sprintf("trusted certificate %s in trust store %s of type %s is invalid: %v", certFileName, namedStore, storeType, err.Error())}\n\t\t}\n\t}\n'
+E_TSA_TYPED_CALL = '\tif err := checkTSARoots(storeType, certs); err != nil {\n\t\treturn nil, CertificateError{InnerError: err, Msg: fmt.Sprintf("trusted certificate %s in trust store %s of type %s is invalid: %v", certFileName, namedStore, storeType, err.Error())}\n\t}\n'
+F_ROOTS = 'func validateRootCACertificates(certs []*x509.Certificate) error {\n\tfor _, cert := range %s {\n\t\tif err := isRootCACertificate(cert); err != nil {\n\t\t\treturn err\n\t\t}\n\t}\n\treturn nil\n}\n\n'
+F_TYPED_ROOTS = 'func checkTSARoots(storeType Type, certs []*x509.Certificate) error {\n\tif %s {\n\t\treturn nil\n\t}\n\tfor _, cert := range certs {\n\t\tif err := isRootCACertificate(cert); err != nil {\n\t\t\treturn err\n\t\t}\n\t}\n\treturn nil\n}\n\n'
+SIG = 'func (trustStore *x509TrustStore) GetCertificates(ctx context.Context, storeType Type, namedStore string) ([]*x509.Certificate, error) {\n'
+def indent(s):
+    return ''.join('\t' + l if l.strip() else l for l in s.splitlines(True))
+def accumulate(call, init='\tvar certificates []*x509.Certificate\n', tail=E_EMPTYRES):
+    return init + '\tfor _, entry := range entries {\n\t\tcerts, err := ' + call + '\n\t\tif err != nil {\n\t\t\treturn nil, err\n\t\t}\n\t\tcertificates = append(certificates, certs...)\n\t}\n' + tail + '\treturn certificates, nil\n}\n\n'
+def f_entry(tsa=E_TSA_INLINE, extra=''):
+    return 'func loadStoreEntry(storePath string, entry fs.DirEntry, storeType Type, namedStore string) ([]*x509.Certificate, error) {\n' + E_ENTRY + tsa + '\treturn certs, nil\n}\n\n' + extra
+
+# class: the method cut into stage helpers at other boundaries (driver over resolve / list / load-entry / validate-roots)
+def stage_helpers(name=E_NAME % '""', stat='os.Lstat(storePath)', roots='certs', resolve_err='\tif err != nil {\n\t\treturn nil, err\n\t}\n', resolve_lhs='storePath, err :=',
+                  list_arg='storePath', entry_arg='storePath', list_guard=''):
+    drv = SIG + '\t' + resolve_lhs + ' trustStore.resolveStorePath(storeType, namedStore)\n' + resolve_err
+    drv += '\tentries, err := listStoreEntries(' + list_arg + ', storeType, namedStore)\n\tif err != nil {\n\t\treturn nil, err\n\t}\n'
+    drv += accumulate('loadStoreEntry(' + entry_arg + ', entry, storeType, namedStore)')
+    res = 'func (trustStore *x509TrustStore) resolveStorePath(storeType Type, namedStore string) (string, error) {\n' + E_TYPE % '""' + name + E_SYS % ('trustStore', '""') + '\treturn storePath, nil\n}\n\n'
+    lst = 'func listStoreEntries(storePath string, storeType Type, namedStore string) ([]fs.DirEntry, error) {\n' + E_LSTAT.replace('os.Lstat(storePath)', stat) + E_MODE + E_READDIR + list_guard + '\treturn entries, nil\n}\n\n'
+    return drv + res + lst + f_entry(E_TSA_CALL, F_ROOTS % roots)
+# class member: type/name/path in the method, the rest in a loader that receives the path
+def path_then_loader(mode=E_MODE, call='\treturn loadStoreDirectory(storePath, storeType, namedStore)\n', partial='nil'):
+    drv = SIG + E_TYPE % 'nil' + E_NAME % 'nil' + E_SYS % ('trustStore', 'nil') + call + '}\n\n'
+    ld = 'func loadStoreDirectory(storePath string, storeType Type, namedStore string) ([]*x509.Certificate, error) {\n' + E_LSTAT + mode + E_READDIR
+    ld += accumulate('loadStoreEntry(storePath, entry, storeType, namedStore)').replace('\t\t\treturn nil, err\n', '\t\t\treturn ' + partial + ', err\n')
+    return drv + ld + f_entry()
+# class member: a chain of two loaders (validate and resolve in the first, list and load in the second)
+def two_level_loader(mid='\treturn loadStoreDirectory(storePath, storeType, namedStore)\n'):
+    drv = SIG + '\treturn trustStore.loadNamedStore(storeType, namedStore)\n}\n\n'
+    midf = 'func (trustStore *x509TrustStore) loadNamedStore(storeType Type, namedStore string) ([]*x509.Certificate, error) {\n' + E_TYPE % 'nil' + E_NAME % 'nil' + E_SYS % ('trustStore', 'nil') + mid + '}\n\n'
+    ld = 'func loadStoreDirectory(storePath string, storeType Type, namedStore string) ([]*x509.Certificate, error) {\n' + E_LSTAT + E_MODE + E_READDIR
+    ld += accumulate('loadStoreEntry(storePath, entry, storeType, namedStore)')
+    return drv + midf + ld + f_entry()
+# class member: the tsa test inside the roots helper (the helper receives the store type)
+def typed_roots(cond='storeType != TypeTSA'):
+    drv = SIG + E_TYPE % 'nil' + E_NAME % 'nil' + E_SYS % ('trustStore', 'nil') + E_LSTAT + E_MODE + E_READDIR
+    drv += accumulate('loadStoreEntry(storePath, entry, storeType, namedStore)')
+    return drv + f_entry(E_TSA_TYPED_CALL, F_TYPED_ROOTS % cond)
+# class: the empty-store test as a guard on the listing, in front of the loop (no test of the result afterwards)
+def empty_guard(guard=E_EMPTYDIR, init='\tcertificates := make([]*x509.Certificate, 0, len(entries))\n', on_err='\t\t\treturn nil, err\n', index_loop=False):
+    drv = SIG + E_TYPE % 'nil' + E_NAME % 'nil' + E_SYS % ('trustStore', 'nil') + E_LSTAT + E_MODE + E_READDIR + guard
+    acc = accumulate('loadStoreEntry(storePath, entry, storeType, namedStore)', init=init, tail='').replace('\t\t\treturn nil, err\n', on_err)
+    if index_loop:
+        acc = acc.replace('\tfor _, entry := range entries {\n', '\tfor i := range entries {\n\t\tentry := entries[i]\n')
+    return drv + acc + f_entry()
+LEN_OLD = '\tif len(certs) < 1 {\n\t\treturn errors.New("input certs cannot be empty")\n\t}\n'
+def whole(name, expect, text, edits=None):
+    d = dict(name=name, file=T, expect=expect, find=GETCERTS_OLD, replace=text)
+    if edits:
+        d['edits'] = edits
+    return d
+VARIANTS += [
+ whole('benign-stage-helpers', 'silent', stage_helpers()),
+ whole('stage-helpers-list-follows-symlink', 'flagged(gate/lstat)', stage_helpers(stat='os.Stat(storePath)')),
+ whole('stage-helpers-roots-first-only', 'flagged(entry/tsa-roots)', stage_helpers(roots='certs[:1]')),
+ whole('stage-helpers-name-unchecked', 'flagged(gate/safe-name)', stage_helpers(name=(E_NAME % '""').replace('!file.IsValidFileName(namedStore)', 'namedStore == "" && !file.IsValidFileName(namedStore)'))),
+ whole('stage-helpers-resolve-error-ignored', 'flagged(gate/known-type)', stage_helpers(resolve_lhs='storePath, _ :=', resolve_err='')),
+ whole('stage-helpers-lists-parent-dir', 'flagged(path/syspath)', stage_helpers(list_arg='filepath.Dir(storePath)', entry_arg='filepath.Dir(storePath)')),
+ whole('stage-helpers-entry-path-mismatch', 'flagged(exact-set/file-path)', stage_helpers(entry_arg='filepath.Dir(storePath)')),
+ whole('benign-stage-helpers-empty-guard-in-list', 'silent', stage_helpers(list_guard=E_EMPTYDIR).replace(E_EMPTYRES, '')),
+ whole('stage-helpers-no-empty-test', 'flagged(gate/non-empty)', stage_helpers().replace(E_EMPTYRES, '')),
+ whole('benign-path-then-loader', 'silent', path_then_loader()),
+ whole('path-then-loader-accepts-symlinked-store', 'flagged(gate/not-symlink)', path_then_loader(mode=E_MODE.replace(' || mode&fs.ModeSymlink != 0', ''))),
+ whole('benign-path-then-loader-forwarded-pair', 'silent', path_then_loader(call='\tcerts, err := loadStoreDirectory(storePath, storeType, namedStore)\n\tif err != nil {\n\t\treturn certs, err\n\t}\n\treturn certs, nil\n')),
+ whole('path-then-loader-partial-set', 'flagged(no-partial-set)', path_then_loader(call='\tcerts, err := loadStoreDirectory(storePath, storeType, namedStore)\n\tif err != nil {\n\t\treturn certs, err\n\t}\n\treturn certs, nil\n', partial='certificates')),
+ whole('benign-two-level-loader', 'silent', two_level_loader()),
+ whole('two-level-loader-error-dropped', 'flagged(exact-set/returned-from-loader)', two_level_loader(mid='\tcerts, _ := loadStoreDirectory(storePath, storeType, namedStore)\n\treturn certs, nil\n')),
+ whole('benign-typed-roots-helper', 'silent', typed_roots()),
+ whole('typed-roots-helper-skips-multi-cert-files', 'flagged(entry/tsa-roots)', typed_roots(cond='storeType != TypeTSA || len(certs) > 1')),
+ whole('benign-empty-guard-before-loop', 'silent', empty_guard()),
+ whole('benign-empty-guard-index-loop', 'silent', empty_guard(guard=E_EMPTYDIR.replace('len(entries) == 0', 'len(entries) < 1'), init='\tvar certificates []*x509.Certificate\n', index_loop=True)),
+ whole('empty-guard-weakened', 'flagged(gate/non-empty)', empty_guard(guard=E_EMPTYDIR.replace('len(entries) == 0', 'len(entries) == 0 && storeType == TypeTSA'))),
+ whole('empty-guard-but-entry-skipped', 'flagged(gate/non-empty)', empty_guard(on_err='\t\t\tcontinue\n')),
+ whole('empty-guard-presized-with-length', 'flagged(exact-set/returns-accumulated)', empty_guard(init='\tcertificates := make([]*x509.Certificate, len(entries))\n')),
+ whole('empty-guard-empty-files-accepted', 'flagged(gate/non-empty)', empty_guard(), edits=[(T, LEN_OLD, LEN_OLD.replace('len(certs) < 1', 'certs == nil'))]),
+ dict(name='benign-lstat-switch-errors-is', file=T, expect='silent',
+      find='\tif err != nil {\n\t\tif os.IsNotExist(err) {\n\t\t\treturn nil, TrustStoreError{InnerError: err, Msg: fmt.Sprintf("the trust store %q of type %q does not exist", namedStore, storeType)}\n\t\t}\n\t\treturn nil, TrustStoreError{InnerError: err, Msg: fmt.Sprintf("failed to access the trust store %q of type %q", namedStore, storeType)}\n\t}\n\tmode := fileInfo.Mode()',
+      replace='\tswitch {\n\tcase err == nil:\n\tcase errors.Is(err, fs.ErrNotExist):\n\t\treturn nil, TrustStoreError{InnerError: err, Msg: fmt.Sprintf("the trust store %q of type %q does not exist", namedStore, storeType)}\n\tdefault:\n\t\treturn nil, TrustStoreError{InnerError: err, Msg: fmt.Sprintf("failed to access the trust store %q of type %q", namedStore, storeType)}\n\t}\n\tmode := fileInfo.Mode()'),
+ dict(name='lstat-switch-not-exist-falls-through', file=T, expect='flagged(gate/lstat)',
+      find='\tif err != nil {\n\t\tif os.IsNotExist(err) {\n\t\t\treturn nil, TrustStoreError{InnerError: err, Msg: fmt.Sprintf("the trust store %q of type %q does not exist", namedStore, storeType)}\n\t\t}\n\t\treturn nil, TrustStoreError{InnerError: err, Msg: fmt.Sprintf("failed to access the trust store %q of type %q", namedStore, storeType)}\n\t}\n\tmode := fileInfo.Mode()',
+      replace='\tswitch {\n\tcase err == nil, fileInfo != nil:\n\tcase errors.Is(err, fs.ErrNotExist):\n\t\treturn nil, TrustStoreError{InnerError: err, Msg: fmt.Sprintf("the trust store %q of type %q does not exist", namedStore, storeType)}\n\tdefault:\n\t\treturn nil, TrustStoreError{InnerError: err, Msg: fmt.Sprintf("failed to access the trust store %q of type %q", namedStore, storeType)}\n\t}\n\tmode := fileInfo.Mode()'),
+]
+
+# class member: the tsa test narrowed to a boolean parameter of the per-entry helper, bound by the caller
+def flag_param(arg='storeType == TypeTSA', hoist=False):
+    drv = SIG + E_TYPE % 'nil' + E_NAME % 'nil' + E_SYS % ('trustStore', 'nil') + E_LSTAT + E_MODE + E_READDIR
+    if hoist:
+        drv += '\trequireRootCA := ' + arg + '\n'
+        arg = 'requireRootCA'
+    drv += accumulate('loadStoreEntry(storePath, entry, storeType, namedStore, ' + arg + ')')
+    fe = f_entry(E_TSA_INLINE.replace('if storeType == TypeTSA {', 'if requireRootCA {')).replace('storeType Type, namedStore string) (', 'storeType Type, namedStore string, requireRootCA bool) (')
+    return drv + fe
+VARIANTS += [
+ whole('benign-roots-flag-parameter', 'silent', flag_param()),
+ whole('benign-roots-flag-parameter-hoisted', 'silent', flag_param(hoist=True)),
+ whole('roots-flag-parameter-bound-to-less', 'flagged(entry/tsa-roots)', flag_param(arg='storeType == TypeTSA && len(entries) == 1')),
+]
+
+# class member: the per-entry processing as a closure over the path, the type and the name (captured variables instead of parameters)
+def entry_closure(tsa=E_TSA_INLINE, before='', after='', join='storePath'):
+    drv = SIG + E_TYPE % 'nil' + E_NAME % 'nil' + E_SYS % ('trustStore', 'nil') + E_LSTAT + E_MODE + E_READDIR + before
+    drv += '\tloadEntry := func(entry fs.DirEntry) ([]*x509.Certificate, error) {\n' + indent(E_ENTRY.replace('filepath.Join(storePath,', 'filepath.Join(' + join + ',') + tsa) + '\t\treturn certs, nil\n\t}\n' + after
+    return drv + accumulate('loadEntry(entry)')
+VARIANTS += [
+ whole('benign-entry-closure', 'silent', entry_closure()),
+ whole('entry-closure-skips-tsa-root-check', 'flagged(entry/tsa-roots)', entry_closure(tsa=E_TSA_INLINE.replace('if storeType == TypeTSA {', 'if storeType == TypeTSA && len(certs) == 1 {'))),
+ whole('entry-closure-captures-other-dir', 'flagged(exact-set/file-path)', entry_closure(before='\tcertDir := filepath.Dir(storePath)\n', join='certDir')),
+ whole('entry-closure-path-reassigned', 'flagged(path/syspath)', entry_closure(after='\tstorePath = filepath.Dir(storePath)\n')),
+ whole('entry-closure-captured-dir-set-too-late', 'flagged(exact-set/file-path)', entry_closure(before='\tvar certDir string\n', join='certDir').replace('\treturn certificates, nil\n', '\tcertDir = storePath\n\treturn certificates, nil\n')),
+]
+
+# class member: single exit — a failed entry is remembered in an error local, the loop is left with break, the local decides after the loop
+def error_local(check='\tif loadErr != nil {\n\t\treturn nil, loadErr\n\t}\n'):
+    drv = SIG + E_TYPE % 'nil' + E_NAME % 'nil' + E_SYS % ('trustStore', 'nil') + E_LSTAT + E_MODE + E_READDIR
+    drv += '\tvar certificates []*x509.Certificate\n\tvar loadErr error\n\tfor _, entry := range entries {\n\t\tcerts, err := loadStoreEntry(storePath, entry, storeType, namedStore)\n\t\tif err != nil {\n\t\t\tloadErr = err\n\t\t\tbreak\n\t\t}\n\t\tcertificates = append(certificates, certs...)\n\t}\n' + check + E_EMPTYRES + '\treturn certificates, nil\n}\n\n'
+    return drv + f_entry()
+VARIANTS += [
+ whole('benign-error-local-break', 'silent', error_local()),
+ whole('error-local-partial-success', 'flagged(entry/no-early-success)', error_local(check='\tif loadErr != nil && len(certificates) == 0 {\n\t\treturn nil, loadErr\n\t}\n')),
+ dict(name='stop-at-first-bad-entry', file=T, expect='flagged(entry/no-early-success)',
+      find='\t\tif err != nil {\n\t\t\treturn nil, CertificateError{InnerError: err, Msg: fmt.Sprintf("failed to read the trusted certificate %s in trust store %s of type %s", certFileName, namedStore, storeType)}\n\t\t}',
+      replace='\t\tif err != nil {\n\t\t\tbreak\n\t\t}'),
+]
